@@ -402,6 +402,12 @@ def run(tier):
                    "data": {"kind": "named", "name": "empty"}, "keys": [0], "hook": "remove-after-exists:2",
                    "tag": "schedule-replay:data-init-handler-remove"}
     replay = vlib.run_impl("c18_impl.py", {"mode": "starts", "work": WORKDIR, "cases": [replay_case]}, extra_env=env)["results"][0]
+    mk_case = {"id": "replay_mkdir", "stream": "schedule replay", "quick": {"kind": "missing"}, "data": {"kind": "missing"},
+               "keys": [0], "nodir": True, "hook": "mkdir-lost-race:1", "then_start": True}
+    mk = vlib.run_impl("c18_impl.py", {"mode": "starts", "work": WORKDIR, "cases": [mk_case]}, extra_env=env)["results"][0]
+    for sig, msg in oracle_start(mk_case, mk, refans):
+        rep.failing("schedule-replay:mkdir-lost-race:" + sig, "the cache folder does not exist; another process creates it between this process' "
+                    "check and its own mkdir: " + msg, {"kind": "schedule-replay", "case": mk_case, "result": mk["results"], "final": mk["final"]})
     for sig, msg in oracle_start(replay_case, replay, refans):
         if sig.startswith("schedule-replay"):
             rep.failing(sig, "two processes start on a damaged data cache; P1 runs os.remove between P2's os.path.exists and "
@@ -543,7 +549,7 @@ def run(tier):
     rep.add_stream("model schedules (interleaved solo runs with timeouts and kills)", nsched,
                    len({json.dumps(m[6]) for m in meta if m[0] == "sched"}),
                    samples=[{"path": m[1], "processes": m[2], "schedule_head": m[6][:12]} for m in meta if m[0] == "sched"][:2])
-    rep.add_stream("schedule replay on the real code", 1, 1, samples=[replay_case])
+    rep.add_stream("schedule replay on the real code", 2, 2, samples=[replay_case, mk_case])
     rep.add_stream("cache written under another configuration of restricted/addons folders", sum(2 + sw["n"] for sw in cfg["switch"]) + 2,
                    len({json.dumps(r.get("answers"), sort_keys=True) for sw in cfg["switch"] for r in sw["results"] + [sw["again"], sw["writer"]]}),
                    samples=[{"first": sw["first"], "second": sw["second"], "n": sw["n"], "answers_of_second": sw["again"].get("answers"),
